@@ -43,6 +43,7 @@ type rawClientDriver struct {
 	ended   bool
 	shut    bool
 	hostile bool
+	advanced bool
 }
 
 func newRawClient(name string, seed int64, cfg Config, hostile bool) *rawClientDriver {
@@ -167,6 +168,12 @@ func (d *rawClientDriver) Next(w *World, step int) string {
 	}
 	if d.hostile && d.devLeft > 0 && step > 4 {
 		add(2, "DEV")
+	}
+	if !d.hostile && !d.advanced && step > 12 && rng.Intn(40) == 0 {
+		// move the clock past every grpc-timeout this driver hands out (30S, 2M): handlers of such
+		// RPCs that are blocked in a read must be released; the others are untouched
+		d.advanced = true
+		return "adv ns=200000000000"
 	}
 	if !d.shut && rng.Intn(60) == 0 {
 		add(1, "shutdown")
